@@ -63,6 +63,10 @@ def h_history(ctx, max_anc, n_ops, n_fluents=3, root_cfg=None, two_updates=False
         fexps = [em.FluentExp(f) for f in fl]
     defaults = {fe: p.fluents_defaults.get(f) for fe, f in zip(fexps, fl)}
 
+    # make_child returns plain UPState objects, so a limit set only on a subclass governs the FIRST make_child alone
+    # (round-4 seed C36D was missed for that reason): set the limit on the base class too (one process per shard / replay).
+    UPState.MAX_ANCESTORS = max_anc
+
     class S(UPState):
         MAX_ANCESTORS = max_anc
 
